@@ -64,7 +64,13 @@ def _enter_server(self, gather_args: tuple = None):
             qout = self._q_in
             while True:
                 x = qin.get()
-                qout.put(x)
+                try:
+                    qout.put(x)
+                except Exception as e:
+                    # The input can not be pickled. Fail this request alone,
+                    # and keep on serving the others.
+                    self._q_out.put((x[0], RemoteException(e)))
+                    continue
                 if x is None:
                     break
 
